@@ -26,7 +26,7 @@ RULE = ("three families of histories. oto: up to 3 OneToOne instances built from
         "list(items()), list(inv.items()) and inv.inv identity observed after EVERY step. m2m: same for ManyToMany "
         "(add/remove/[]=/del/replace/update/update(other)/ManyToMany(other)/==) with canonical sorted views read "
         "alternately through keys()+[] and keys()+iteritems(). fd: a FrozenDict, every mutator, hash (repeated), "
-        "updated/copy/pickle/deepcopy, and a second FrozenDict with the same items inserted in another order (or a "
+        "updated/copy/pickle/deepcopy, a pickle loaded in a fresh interpreter with another hash seed, and a second FrozenDict with the same items inserted in another order (or a "
         "perturbed one). non-trivial = oto: an op through .inv and an eviction-capable write on a non-empty instance; "
         "m2m: an op through .inv and an entry that disappeared; fd: >= 2 items and a twin; distinct = canonical hash")
 ASSUMPTIONS = ["keys/values are hashable with lawful __eq__/__hash__ (tokens mapped to pairwise != python objects)",
@@ -466,6 +466,14 @@ def gen_fd(rng, tier):
         else:
             ops.append([name])
     ops.insert(rng.randint(0, len(ops)), ["hash"])
+    if rng.random() < 0.3:
+        # a pickle taken here and loaded in ANOTHER process (another hash seed), usually AFTER hash() was taken
+        x = ["xproc", rng.choice([0, 1, 2, 3, 4, 5]), rng.randint(1, 4000000000)]
+        if rng.random() < 0.8:
+            hs = [i for i, o in enumerate(ops) if o[0] == "hash"]
+            ops.insert(rng.randint(hs[0] + 1, len(ops)), x)
+        else:
+            ops.insert(rng.randint(0, len(ops)), x)
     # the twin: same items in another insertion order, sometimes perturbed
     d = {}
     for k, v in kvs:
@@ -814,6 +822,45 @@ def _fd_new(form, pairs, sub=False):
     return f
 
 
+_XPROC = r"""
+import sys, json, pickle
+import c17
+c17.classes()
+from boltons.dictutils import FrozenDict, FrozenHashError
+loaded = pickle.loads(bytes.fromhex(sys.stdin.read().strip()))
+assert isinstance(loaded, FrozenDict)
+rebuilt = type(loaded)(dict(loaded))            # same items, built in THIS process
+def h(x):
+    try:
+        return ["ok", hash(x)]
+    except FrozenHashError:
+        return ["raise"]
+h1, h2 = h(loaded), h(rebuilt)
+member = None
+if h1[0] == "ok" and h2[0] == "ok":
+    member = bool(loaded in {rebuilt} and rebuilt in {loaded} and {loaded: 1}.get(rebuilt) == 1)
+print(json.dumps([[[c17.tok(k), c17.tok(v)] for k, v in loaded.items()], h1 == h2,
+                  bool(loaded == rebuilt and rebuilt == loaded and not (loaded != rebuilt)), member]))
+"""
+
+
+def _load_in_other_process(data, seed):
+    """pickle.loads in a fresh interpreter started with ANOTHER hash seed (the workers run with PYTHONHASHSEED=0),
+    importing boltons from the same tree; -> [items seen there, hash outcomes agree, ==, membership or None]"""
+    import json as _json
+    import os
+    import subprocess
+    import sys
+    import boltons
+    repo = os.path.dirname(os.path.dirname(os.path.abspath(boltons.__file__)))
+    here = os.path.dirname(os.path.abspath(__file__))
+    env = dict(os.environ, PYTHONHASHSEED=str(seed), PYTHONPATH=repo + os.pathsep + here)
+    p = subprocess.run([sys.executable, "-c", _XPROC], input=data.hex(), capture_output=True, text=True, env=env, timeout=60)
+    if p.returncode != 0:
+        raise RuntimeError("loading the pickle in another process failed: " + p.stderr[-800:])
+    return _json.loads(p.stdout.strip().splitlines()[-1])
+
+
 def run_fd(case):
     import pickle
     import operator
@@ -879,6 +926,8 @@ def run_fd(case):
                 cleanup()
                 assert type(r) is type(fd)
                 res = new_res(r)
+            elif name == "xproc":
+                res = ["ok", ["x"] + _load_in_other_process(pickle.dumps(fd, op[1]), op[2])]
             elif name == "copy":
                 res = new_res(_copy.copy(fd))
             elif name == "clone":
@@ -1078,6 +1127,8 @@ def c_fres(res):
         return "(Ok (FTok %s))" % cn(v[1])
     if v[0] == "hash":
         return "(Ok (FHashV %s))" % cz(v[1])
+    if v[0] == "x":
+        return "(Ok (FX %s %s %s %s))" % (ckvs(v[1]), cb(v[2]), cb(v[3]), "None" if v[4] is None else "(Some %s)" % cb(v[4]))
     if v[0] == "new":
         h = v[4]
         hout = "HNA" if h[0] == "na" else ("HRaise" if h[0] == "raise" else "(HOk %s)" % cz(h[1][1]))
@@ -1115,6 +1166,8 @@ def c_fd_op(op):
         return "FCopy"
     if name == "clone":
         return "FClone %s" % cb(op[1] == "dictcopy")
+    if name == "xproc":
+        return "FXProc"
     raise ValueError(name)
 
 
